@@ -350,3 +350,73 @@ def long_shuffle_games(rng, count, max_segments=16):
                     ms += ["g1f3", "g8f6", "f3g1", "f6g8"]
         games.append((START, ms))
     return games
+
+
+# ------------------------------------------------------------------------------------------------
+# material classes: random placements for each specialised endgame class (both colours), with the
+# blockade / fortress / wrong-bishop templates the evaluators special-case
+
+ENDGAME_CLASSES = {
+    "KPK": ("P", ""), "KPsK": ("PP", ""), "KPsK3": ("PPP", ""), "KRKB": ("R", "b"), "KRKN": ("R", "n"), "KNNK": ("NN", ""),
+    "KNNKP": ("NN", "p"), "KQKR": ("Q", "r"), "KNBK": ("NB", ""), "KRNKR": ("RN", "r"), "KRBKR": ("RB", "r"), "KBPsK": ("BP", ""),
+    "KBPsK2": ("BPP", ""), "KBPsKB": ("BP", "b"), "KBPsKB2": ("BPP", "b"), "KBPsKB3": ("BPPP", "b"), "KRKP": ("R", "p"), "KQKP": ("Q", "p"),
+    "KQKRPs": ("Q", "rp"), "KQKRPs2": ("Q", "rpp"), "KBBKN": ("BB", "n"), "KBNKB": ("BN", "b"), "KNNKB": ("NN", "b"),
+    "KQK": ("Q", ""), "KRK": ("R", ""), "KQQK": ("QQ", ""), "KRRPK": ("RRP", ""), "KBBK": ("BB", ""),
+}
+
+
+def mirror_fen(fen):
+    """ranks flipped, colours, castling rights, en-passant square and side to move swapped"""
+    pl, stm, rights, ep, clock, full = fen.split()
+    rows = pl.split("/")
+    pl2 = "/".join(r.swapcase() for r in reversed(rows))
+    stm2 = "b" if stm == "w" else "w"
+    r2 = "".join(c for c in "KQkq" if c.swapcase() in rights) or "-"
+    ep2 = "-" if ep == "-" else ep[0] + str(9 - int(ep[1]))
+    return "%s %s %s %s %s %s" % (pl2, stm2, r2, ep2, clock, full)
+
+
+def material_positions(rng, per_class, classes=None):
+    out = []
+    for name, (strong, weak) in (classes or ENDGAME_CLASSES).items():
+        for _ in range(per_class):
+            board = {}
+            free = list(range(64))
+            rng.shuffle(free)
+
+            def put(pc, cond=lambda s: True):
+                for i, s in enumerate(free):
+                    if cond(s) and not (pc in "Pp" and s // 8 in (0, 7)):
+                        board[s] = pc
+                        free.pop(i)
+                        return s
+                return None
+            k1 = put("K")
+            put("k", lambda s: max(abs(s % 8 - k1 % 8), abs(s // 8 - k1 // 8)) > 1)
+            r = rng.random()
+            for pc in strong:
+                if pc == "P" and r < 0.35:
+                    # rook-file / same-file / adjacent-file pawn templates
+                    f = rng.choice([0, 7]) if r < 0.15 else rng.choice([0, 1, 2, 5, 6, 7])
+                    put(pc, lambda s: s % 8 in (f, min(7, f + (1 if r > 0.25 else 0))))
+                else:
+                    put(pc)
+            for pc in weak:
+                if pc == "p" and rng.random() < 0.5:
+                    put(pc, lambda s: s // 8 in (1, 2) and s % 8 in (0, 2, 5, 7))
+                else:
+                    put(pc)
+            fen = board_to_fen(board, rng.choice("wb"), "", None, rng.choice([0, 0, 3, 40]), rng.choice([1, 50]))
+            out.append((name, fen))
+            out.append((name + "/mirrored", mirror_fen(fen)))
+    return out
+
+
+KBPSKB_TEMPLATES = [
+    "b7/8/2K1k3/4P3/3P4/8/8/2B5 w - - 0 1", "8/8/4k3/2b1P3/3P1K2/8/8/2B5 b - - 0 1", "8/2b5/3k4/3P4/2P5/1K6/8/4B3 w - - 0 1",
+    "8/8/3kb3/3P4/4P3/8/2K5/5B2 w - - 0 1", "8/5b2/4k3/4P3/5P2/3K4/8/6B1 b - - 0 1", "5b2/8/4k3/3P4/4P3/8/3K4/B7 w - - 0 1",
+]
+FORTRESS_TEMPLATES = [
+    "8/8/8/8/8/1pk5/1r6/3Q2K1 w - - 0 1", "8/6pk/6r1/8/8/8/3Q4/6K1 w - - 0 1", "6k1/5pp1/6r1/8/8/8/3Q4/6K1 b - - 0 1",
+    "8/8/8/8/8/k7/p7/K1Q5 w - - 0 1", "8/8/8/8/8/2k5/2p5/K3Q3 w - - 0 1", "7k/7P/7K/8/8/8/8/3B4 w - - 0 1", "k7/P7/K7/8/8/8/8/3B4 w - - 0 1",
+]
